@@ -18,6 +18,12 @@ def gen(x):
     w.append("def mdsdrv_pitch_node_size : Nat := %s" % m.group(2))
     w.append("def mdsdrv_pitch_node_max : Nat := %s  -- ... * 256" % m.group(3))
     w.append("def mdsdrv_msg_pitch_too_long : String := %s" % lean_str(m.group(4)))
+    # add_pitch_envelope / add_extended_pitch_envelope: the loop position must fit its byte (both sites, same text)
+    ms = re.findall(r'if\(loop_pos > (\d+)\)\s*throw InputError\(nullptr, stringf\("([^"%]*)%d([^"%]*)", id\)\.c_str\(\)\);', c)
+    if len(ms) != 2 or ms[0] != ms[1]:
+        raise x.ShapeError("mdsdrv.cpp:pitch envelope loop position check (compact and extended)")
+    w.append("def mdsdrv_pitch_loop_max : Nat := %s  -- mdsdrv.cpp if(loop_pos > 255)" % ms[0][0])
+    w.append("def mdsdrv_msg_pitch_loop : String × String := (%s, %s)  -- around %%d = id" % (lean_str(ms[0][1]), lean_str(ms[0][2])))
     # add_instrument: empty tag
     m = x.need(re.search(r'if\(tag\.empty\(\)\)\s*throw InputError\(nullptr, stringf\("([^"%]*)%d([^"%]*)", id\)\.c_str\(\)\);\s*auto it = tag\.begin\(\);', c),
                "mdsdrv.cpp:add_instrument empty tag")
